@@ -377,6 +377,25 @@ func evaluate(d driver, hist []int, log *crashlog.Log, base *crashlog.Image, c c
 		return nil
 	}
 	if f := resolve("recovered"); f != nil {
+		// A torn (not zeroed) blob of an in-flight receive is served: a known class for
+		// diskpacked's Reindex. The store's own way out is that receiving the blob again
+		// rewrites it (its duplicate check notices that the pack is too short for the
+		// recorded blob): probe that before reporting, so that losing this self-healing is
+		// a finding of its own.
+		if !last.remove && strings.Contains(f.sig, "|torn-blob-served|") {
+			if err := apply(sto, op{"recv-" + last.b.Name, false, last.b}); err != nil {
+				return fail("continue-after-torn", "op-fails-after-recovery", fmt.Sprintf("receiving %s again after it was served torn: %v", last.b.Name, err))
+			}
+			rc, size, err := sto.Fetch(ctx, last.b.Ref)
+			var data []byte
+			if err == nil {
+				data, err = io.ReadAll(rc)
+				rc.Close()
+			}
+			if err != nil || int(size) != len(last.b.Data) || !bytes.Equal(data, last.b.Data) {
+				return fail("continue-after-torn", "re-receive-does-not-heal-torn-blob", fmt.Sprintf("%s was served torn after recovery (%s); receiving it again was acknowledged, but Fetch still returns size %d, %d bytes %q (error %v); want %q", last.b.Name, f.what, size, len(data), clip(data), err, last.b.Data))
+			}
+		}
 		return f
 	}
 	check := func(phase string) *finding {
